@@ -5,6 +5,7 @@
 #include "vf.h"
 #include "keys.h"
 #include "tok.h"
+#include "rotate.h"
 
 static const time_t T0 = 1700000000;
 
@@ -402,7 +403,9 @@ static void enumerate_c05(void)
 			}
 		}
 	}
-	vf_count("evaluations", n_tokens + n_verifies);
+	/* key rotation with certain address reuse: the token of every round is made with, and accepted under, that round's key */
+	rot_enumerate("roundtrip");
+	vf_count("evaluations", n_tokens + n_verifies + rot_rounds + rot_checks);
 	vf_count("tokens_generated", n_tokens);
 	vf_count("verifications", n_verifies);
 	vf_count("roundtrips_content_equal", n_equal);
